@@ -175,7 +175,9 @@ OffOf(id) == log[CHOOSE i \in Pos(id) : TRUE].off
 Cond(id) == cfg.occ /\ msgs[id].exp # -1
 \* the answer as far as the publisher has seen it
 R(id) == IF msgs[id].ackT < Inf THEN msgs[id].res ELSE "pending"
-Errors == {"incorrect_offset", "bad_request", "other"}
+\* explicit refusals by the server ("other" = transport-level error, "timeout":
+\* they say nothing about what the server did and are not judged)
+Errors == {"incorrect_offset", "bad_request"}
 
 \* the log is dense from offset 0
 C16_Dense == \A i \in 1..Len(log) : log[i].off = i - 1
@@ -212,7 +214,7 @@ C16_RejectJustified ==
 
 \* expected offset -1 is always accepted
 C16_WaivedAccepted ==
-  \A id \in Ids : (msgs[id].exp = -1 /\ ~(cfg.occ /\ msgs[id].pol = "none")) => R(id) \in {"ok", "noack", "pending"}
+  \A id \in Ids : (msgs[id].exp = -1 /\ ~(cfg.occ /\ msgs[id].pol = "none")) => R(id) \notin Errors
 
 \* of the publishes racing with the same expected offset at most one is stored
 C16_OneWinner ==
